@@ -81,7 +81,10 @@ PROPS["C07"] = {
             "parent; Announce bearing the port's own identity or from outside the acceptable master list; Sync / Follow_Up not from "
             "the parent or to a non-slave port; Delay_Resp for another requester or from a non-parent), inserted at arbitrary "
             "positions in every reachable port state. The two runs must be identical (two-run oracle on the implementation); "
-            "the model is compared on every inserted op (it must predict: no output, state unchanged). distinct = distinct inserted op lines",
+            "the model is compared on every inserted op (it must predict: no output, state unchanged). ACC ops: every AcceptableMasterList "
+            "implementation the library ships (AcceptAnyMaster, slice, ArrayVec, Vec, BTreeSet, HashSet, Option of those) queried with lists "
+            "of zero to six identities (with repeats) and identities inside and outside them, against the model's `acceptable` and plain "
+            "membership. distinct = distinct inserted op lines",
     "explanation": "Lean: ignored_noop for each class and noninterference for all histories and insertions; tie by the two-run stream",
     "assumptions": INST_ASSUME + ["log output and CPU time are outside 'observationally identical'",
                    "ignored_noop assumes an unacceptable Announce is not from the currently selected parent (the parent passed the list when it was selected)"],
@@ -328,7 +331,10 @@ PROPS["C19"] = {
             "OpenMetrics text grammar (HELP/TYPE before samples, UNIT suffix, label syntax and escapes, numeric values), and the set of "
             "samples equals an independently written table (every metric by the meaning of its help text and unit suffix, true as 1, "
             "nanosecond metrics in nanoseconds, values exactly equal as binary64). FMT ops: the model's rendering of binary64 values "
-            "against Rust's `{}` on random, integral, fixed-point and special bit patterns. view: C11's stream - the snapshot getters against the "
+            "against Rust's `{}` on random, integral, fixed-point and special bit patterns. Every fourth state is also published the daemon's own "
+            "way: into the watch channel of the real statime_linux::observer task running in the harness process (its socket, accept loop, "
+            "ProgramData::with_uptime and write_json), from which a second exporter process reads; the program data in the model's op line "
+            "are then the daemon's own and the served uptime must lie between the times the task has verifiably been running. view: C11's stream - the snapshot getters against the "
             "instance's live data sets. inst: `DUMP` ops (one op in 25 of the instance stream's histories) print every field of default_ds, "
             "current_ds (with the Slave port's filter estimates, as main.rs passes them), parent_ds, time_properties_ds, path_trace_ds and of "
             "port_ds() of every port - the getters the daemon builds its ObservableInstanceState from - compared with the model's state; "
@@ -336,7 +342,7 @@ PROPS["C19"] = {
             "carries the Slave port's estimates and zero otherwise. distinct = distinct op lines",
     "explanation": "Lean model of format.rs (metric table, label escaping, layout, Content-Length) incl. Rust's shortest-round-trip float rendering; theorems over every state; end-to-end byte-exact correspondence through serde_json, the socket and the exporter process",
     "assumptions": ["serde_json itself is not modelled: that a document written by the daemon reads back as the same state is established by the end-to-end runs (state in, samples out), not by a theorem",
-                    "the observation socket delivers what the observer wrote (one write_all, then close), as the harness's socket does",
+                    "three states in four reach the exporter through the harness's own socket server, which delivers the document as the observer does (one write_all, then close); one in four through the real observer task",
                     "PortDS fields that no metric shows (log intervals, versions, asymmetry, master_only) and default_ds.domain / sdo_id / slave_only are carried through the JSON hop but not observable at the endpoint"],
 }
 
